@@ -1,82 +1,14 @@
 """PRIVATE development hook for the concurrent half of C13 (the race protocols of stop_immediately,
-take_until and the type_erased_stream next-op).  tools/props/c13.py carries the same units; this file
-exists so that they can be run without the (long) sequential half:  tools/check C13proto_dev"""
-import os, re, json, k1, vlib
+take_until and the type_erased_stream next-op).  tools/props/c13.py carries the same units (see
+tools/units/stream_proto.py: run_units); this file exists so that they can be run without the (long)
+sequential half:  tools/check C13proto_dev   (delete evidence/C13proto_dev.json and out/C13proto_dev afterwards)"""
+import os, vlib
 from units import stream_proto
 LEVEL = "proof"
 
-# verdict tag of the direct monitors -> violation key
-TAGS = {
-    "stop_immediately": {
-        "UAF9:": "finding9-start-uses-stream_-after-destruction",
-        "UAF9B:": "finding9b-handle_signal-reads-dead-receiver",
-    },
-    "take_until": {
-        "F2-DTOR:": "finding2-trigger-cleanup-destroys-sourceOp",
-    },
-}
-
-
-class Keyed:
-    """Check proxy: a monitor failure is reported under a key that names the defect (from the tag the
-    verdict starts with) instead of the generic '<unit>/<program>/monitor'."""
-    def __init__(self, chk):
-        object.__setattr__(self, "_chk", chk)
-    def __getattr__(self, n):
-        return getattr(self._chk, n)
-    def __setattr__(self, n, v):
-        setattr(self._chk, n, v)
-    def violation(self, key, replay_path, no_input=False, text=""):
-        if key.endswith("/monitor"):
-            unit, prog = key.split("/")[0], key.split("/")[-2]
-            m = re.match(r"\s*([A-Z][A-Z0-9-]*:)", text or "")
-            tag = m.group(1) if m else "FAILED:"
-            name = TAGS.get(unit, {}).get(tag) or ("monitor-" + tag.rstrip(":").lower())
-            key = "%s/%s/%s" % (unit, name, prog)
-            try:      # one replay file per (program, tag): k1 names it by program only
-                obj = json.load(open(replay_path))
-                newp = replay_path.replace(".json", "_" + re.sub(r"\W+", "_", tag.rstrip(":")) + ".json")
-                json.dump(obj, open(newp, "w"), indent=1)
-                replay_path = newp
-            except (OSError, ValueError):
-                pass
-        return self._chk.violation(key, replay_path, no_input=no_input, text=text)
-
-
-def units():
-    us = [stream_proto.StopImmediately()]
-    for n in ("TakeUntil", "TypeEraseNext"):
-        if hasattr(stream_proto, n):
-            us.append(getattr(stream_proto, n)())
-    only = os.environ.get("VERIF_C13_ONLY")       # development: run one unit only
-    if only:
-        us = [u for u in us if u.name == only]
-    return us
-
-
-def trusted_base():
-    return [
-        "Coq 8.16.1 kernel (vm_compute conversions re-checked at Qed); Print Assumptions closed for every theorem in "
-        "Properties_C13_stopimm.v / _takeuntil.v / _typeerase.v",
-        "extraction ExtrOcamlBasic only; ocaml/lockstep.ml, handlers/h_stopimm.ml / h_takeuntil.ml / h_typeerasenext.ml glue",
-        "harness: verif_shim.hpp + dsched (serialises real threads, preempts before atomic accesses only: sequential consistency "
-        "and data-race freedom of everything but the named atomics assumed), k1_stream_common.hpp (scripted source stream with "
-        "tracked, poisoned op-states; consumer doing what reduce_stream does), the three k1 drivers (compiled -O0)",
-        "modelled not verified: the stop sources at lock granularity (C03 owns their internals); the sources ignore stop requests",
-        "model variants tied to the code: tools/units/stream_proto.py MODEL_VARIANT = %r" % (stream_proto.MODEL_VARIANT,)]
-
-
-def run_units(chk):
-    kchk = Keyed(chk)
-    for u in units():
-        k1.run_unit(kchk, u)
-        for cfg2 in getattr(u, "thorough_cfgs", ()) if chk.tier != "quick" else ():
-            u2 = type(u)(); u2.cfg = cfg2; u2.name = u.name + "@" + cfg2
-            k1.run_unit(kchk, u2, key_prefix=u.name)
-
 
 def run(chk, replay=None):
-    chk.cov["trusted_base"] = trusted_base()
+    chk.cov["trusted_base"] = stream_proto.trusted_base()
     chk.cov["rule"] = ("K1: all schedules of each program with <= bound preemptions (truncated at maxruns) plus seeded random ones; "
                        "distinct = distinct projected traces; non-trivial = at least two context switches among owned events")
     chk.cov["model_variant"] = dict(stream_proto.MODEL_VARIANT)
@@ -93,4 +25,4 @@ def run(chk, replay=None):
             else:
                 p = chk.replay_file("proof_" + sub, {"kind": "proof-obligation", "failed": r.get("failed", ""), "log_tail": r["log"][-1500:]})
                 chk.violation("proof:" + sub, p, no_input=True, text=r.get("failed", "")[:300])
-    run_units(chk)
+    stream_proto.run_units(chk)
